@@ -116,6 +116,11 @@ func (tm *typesMap) IsExternal(typ ObjectGetter) bool {
 }
 
 func (tm *typesMap) SetFuncName(funcName string, typs ...types.Type) (string, error) {
+	if renamed, ok := tm.autonamed[renamedCall(funcName, typs)]; ok && tm.autoname {
+		// A call of this name with these types was renamed in an earlier pass: this is such a call, which only has its types now.
+		// Whichever of them is met first, they are one function.
+		funcName = renamed
+	}
 	if fName, ok := tm.nameOf(typs); ok {
 		if fName == funcName {
 			return funcName, nil
@@ -135,6 +140,7 @@ func (tm *typesMap) SetFuncName(funcName string, typs ...types.Type) (string, er
 		if tm.autoname {
 			name := tm.GetFuncName(typs...)
 			tm.autonamed[name] = funcName
+			tm.autonamed[renamedCall(funcName, typs)] = name
 			return name, nil
 		}
 		return "", fmt.Errorf("conflicting function names %s(%v) and %s(%v)", funcName, ts, funcName, typs)
@@ -143,6 +149,12 @@ func (tm *typesMap) SetFuncName(funcName string, typs ...types.Type) (string, er
 	tm.typss = append(tm.typss, typs)
 	tm.names = append(tm.names, funcName)
 	return funcName, nil
+}
+
+// renamedCall is the key under which the table of renamed calls remembers the new name of a call by its written name and its types.
+// It is not an identifier, so it cannot be taken for one of the new names, which the table holds as well.
+func renamedCall(funcName string, typs []types.Type) string {
+	return funcName + "(" + fmt.Sprint(typs) + ")"
 }
 
 func (tm *typesMap) GetFuncName(typs ...types.Type) string {
